@@ -45,9 +45,12 @@ OneCases    == { [Base EXCEPT !.kind = k, !.ty = t, !.A = a, !.fa = f, !.elt = e
                     s \in {"list", "map"} }
 TwoElts(k) == CASE k = "listc" -> {"pair", "el2"} [] k = "mapc" -> {"el2a"} [] k = "selc2" -> {"el2"}
                 [] k = "existc" -> {"none"}
-TwoCases    == { [Base EXCEPT !.kind = k, !.nph = 2, !.A = a, !.B = b, !.fa = f, !.fb = g, !.elt = e] :
+\* src "ovl": the comprehension is an argument of an OVERLOADED function whose second candidate matches (the compiler
+\* compiles the argument once per candidate it tries; the value and the effects must not depend on that)
+TwoCases    == { [Base EXCEPT !.kind = k, !.nph = 2, !.A = a, !.B = b, !.fa = f, !.fb = g, !.elt = e, !.src = s] :
                     k \in {"listc", "mapc", "selc2", "existc"}, a \in Lists(MaxLen2), b \in Lists(MaxLen2),
-                    f \in {"none", "keep", "ltb"}, g \in {"none", "keep"}, e \in {"pair", "el2", "el2a", "none"} }
+                    f \in {"none", "keep", "ltb"}, g \in {"none", "keep"}, e \in {"pair", "el2", "el2a", "none"},
+                    s \in {"list", "ovl"} }
 CmdCases    == { [Base EXCEPT !.kind = "cmd", !.A = a, !.src = s] :
                     a \in (Lists(MaxLen) \ {<<>>}), s \in {"list", "method"} }
 
@@ -59,6 +62,7 @@ Legal(c) ==
           /\ (c.ty # "int" => c.elt = "x" /\ c.fa \in {"none", "keep"})   \* typed elements: identity element only
           /\ (c.src = "map" => c.ty = "int"))
    /\ (c.nph = 2 => c.elt \in TwoElts(c.kind))
+   /\ (c.src = "ovl" => c.kind = "listc" /\ c.nph = 2)
    \* generated programs must use every variable they declare (a for-phrase variable nobody reads is
    \* rejected by the Go tool chain for a reason that belongs to another property)
    /\ (c.kind = "existc" /\ c.nph = 1 => c.fa # "none")
